@@ -138,7 +138,8 @@ Record shared := mksh {
   clk : list (N * N);          (* clock shard -> last issued/observed *)
   nid : N;                     (* next generation id *)
   shard_of : list (N * N);     (* key -> clock shard (an input: depends on the process's hash seed) *)
-  owner : list (N * N)         (* ghost: generation id -> the key it was published for *)
+  owner : list (N * N);        (* ghost: generation id -> the key it was published for *)
+  ver : list (N * N)           (* ghost: key -> number of accepted modifications so far *)
 }.
 
 Definition nget (k : N) (l : list (N * N)) : N := match aget k l with Some x => x | None => 0 end.
@@ -161,13 +162,13 @@ Definition shard (s : shared) (k : N) : N := nget k (shard_of s).
 Definition draw (s : shared) (k : N) : N * shared :=
   let sh := shard s k in
   let t := N.max WALL (nget sh (clk s) + 1) in
-  (t, mksh (tbl s) (retired s) (succ s) (aset sh t (clk s)) (nid s) (shard_of s) (owner s)).
+  (t, mksh (tbl s) (retired s) (succ s) (aset sh t (clk s)) (nid s) (shard_of s) (owner s) (ver s)).
 
 (* VersionClock::observe, called for explicit timestamps when the write is published *)
 Definition observe (s : shared) (k : N) (ts : N) (ex : bool) : shared :=
   if ex then
     let sh := shard s k in
-    mksh (tbl s) (retired s) (succ s) (aset sh (N.max (nget sh (clk s)) ts) (clk s)) (nid s) (shard_of s) (owner s)
+    mksh (tbl s) (retired s) (succ s) (aset sh (N.max (nget sh (clk s)) ts) (clk s)) (nid s) (shard_of s) (owner s) (ver s)
   else s.
 
 Definition resolve (s : shared) (k : N) (tso : option N) : N * bool * shared :=
@@ -179,16 +180,16 @@ Definition resolve (s : shared) (k : N) (tso : option N) : N * bool * shared :=
 (* entry.insert(new) on an occupied entry: link the successor, swap *)
 Definition publish_replace (s : shared) (k : N) (e : gen) (v : val) (ts : N) (ex : bool) : shared :=
   let id := nid s in
-  observe (mksh (aset k (mkgen id v ts) (tbl s)) (retired s) (aset (g_id e) id (succ s)) (clk s) (id + 1) (shard_of s) (aset id k (owner s))) k ts ex.
+  observe (mksh (aset k (mkgen id v ts) (tbl s)) (retired s) (aset (g_id e) id (succ s)) (clk s) (id + 1) (shard_of s) (aset id k (owner s)) (aset k (nget k (ver s) + 1) (ver s))) k ts ex.
 
 (* insert_entry on a vacant entry *)
 Definition publish_new (s : shared) (k : N) (v : val) (ts : N) (ex : bool) : shared :=
   let id := nid s in
-  observe (mksh (aset k (mkgen id v ts) (tbl s)) (retired s) (succ s) (clk s) (id + 1) (shard_of s) (aset id k (owner s))) k ts ex.
+  observe (mksh (aset k (mkgen id v ts) (tbl s)) (retired s) (succ s) (clk s) (id + 1) (shard_of s) (aset id k (owner s)) (aset k (nget k (ver s) + 1) (ver s))) k ts ex.
 
 (* delete: retired_at.store(ts); entry.remove() *)
 Definition retire_remove (s : shared) (k : N) (e : gen) (ts : N) (ex : bool) : shared :=
-  observe (mksh (adel k (tbl s)) (aset (g_id e) ts (retired s)) (succ s) (clk s) (nid s) (shard_of s) (owner s)) k ts ex.
+  observe (mksh (adel k (tbl s)) (aset (g_id e) ts (retired s)) (succ s) (clk s) (nid s) (shard_of s) (owner s) (aset k (nget k (ver s) + 1) (ver s))) k ts ex.
 
 (* ---- thread-local control state: where the thread is parked ---- *)
 Inductive pc :=
@@ -197,7 +198,7 @@ Inductive pc :=
 | PUGuard (ts : N) (ex : bool) (g : gen)
 | PUIns (ts : N) (ex : bool)
 | PDGuard (ts : N) (ex : bool)
-| PCGuard (ts : N) (ex : bool) (g : gen)
+| PCGuard (ts : N) (ex : bool) (g : gen) (v0 : N)   (* v0: ghost, the key's modification count at the read *)
 | PNTop (obs : option gen)
 | PNCreate (obs : option gen) (ts : N) (ex : bool)
 | PNGuard (root g : gen) (nv : Z) (ts : N) (ex : bool)
@@ -257,7 +258,7 @@ Definition opstep (s : shared) (o : op) (p : pc) : shared * (pc + resp) * option
       end
   | OCas k e n tso =>
       match p with
-      | PCGuard ts ex g =>      (* replace_record_if_current *)
+      | PCGuard ts ex g _ =>      (* replace_record_if_current *)
           match aget k (tbl s) with
           | Some c =>
               if negb (same c g) then done s o ts ex (RBool false) (val_eqb (g_val c) e)
@@ -270,7 +271,7 @@ Definition opstep (s : shared) (o : op) (p : pc) : shared * (pc + resp) * option
           | None => done s o 0 false (RBool false) false
           | Some g =>
               if val_eqb (g_val g) e
-              then let '(ts, ex, s') := resolve s k tso in goto s' (PCGuard ts ex g)
+              then let '(ts, ex, s') := resolve s k tso in goto s' (PCGuard ts ex g (nget k (ver s)))
               else done s o 0 false (RBool false) false
           end
       end
@@ -399,7 +400,7 @@ Fixpoint finish (fuel : nat) (w : world) : world :=
            end
   end.
 
-Definition init_shared (shards : list (N * N)) : shared := mksh [] [] [] [] 1 shards [].
+Definition init_shared (shards : list (N * N)) : shared := mksh [] [] [] [] 1 shards [] [].
 Definition init_world (shards : list (N * N)) (progs : list (list op)) : world :=
   mkw (init_shared shards) (map (fun p => mkth p PStart []) progs) [].
 
